@@ -479,8 +479,7 @@ def _r1_r2_fkm(ctx):
             sl = _resid_slot(s.value)
             if sl is not None:
                 env[s.targets[0].id] = sl
-        if isinstance(s, ast.If) and any(isinstance(c.func, ast.Attribute) and c.func.attr == "pop" and
-                                         is_self_attr(c.func.value, "_residuals") for x in s.body for c in calls_in(x)):
+        if isinstance(s, ast.If) and any(_stack_delta(x, _stack_aliases(fi.node)) < 0 for x in s.body):
             closing = s
     if closing is None:
         raise AnalysisError("FKMDetector.process: closing branch not found")
@@ -530,8 +529,7 @@ def _r1_r2_fkm(ctx):
             c = s.value
             if c.func.attr == "append" and isinstance(c.func.value, ast.Name):
                 apps[c.func.value.id] = env.get(c.args[0].id) if isinstance(c.args[0], ast.Name) else None
-            if c.func.attr == "pop" and is_self_attr(c.func.value, "_residuals") and not c.args:
-                pops += 1
+    pops = -sum(min(0, _stack_delta(s_, _stack_aliases(fi.node))) for s_ in closing.body)
     rv = [c for c in calls_in(fi.node) if isinstance(c.func, ast.Attribute) and c.func.attr == "record_values"]
     if len(rv) != 1 or len(rv[0].args) != 2:
         raise AnalysisError("FKMDetector.process: record_values call not found")
@@ -605,14 +603,56 @@ def _r1_r2_fkm_nonlinear(ctx):
         raise AnalysisError("_hcm_process_sample: c)ii handler call not found")
     kw = {k.arg: env.get(k.value.id) if isinstance(k.value, ast.Name) else None for k in call[0].keywords}
     h = prog.func("pylife.stress.rainflow.fkm_nonlinear:FKMNonlinearDetector._handle_case_c_ii")
-    pops = [c for c in calls_in(h.node) if isinstance(c.func, ast.Attribute) and c.func.attr == "pop" and
-            is_self_attr(c.func.value, "_residuals") and not c.args]
+    n_pops = -sum(min(0, _stack_delta(s_, _stack_aliases(h.node))) for s_ in walk_function(h.node) if isinstance(s_, ast.stmt))
+    pops = [None] * n_pops
     ok = kw.get("previous_point_0") == SL(-2) and kw.get("previous_point_1") == SL(-1) and len(pops) == 2
     if ok:
         ctx.holds(fi, call[0], "hysteresis handler receives slots -2/-1 and pops exactly twice", rule="R-C02-2")
     else:
         ctx.violated(fi, call[0], "hysteresis handler receives %s and pops %d time(s); it must get slots -2/-1 and remove "
                      "exactly those" % (kw, len(pops)), rule="R-C02-2", text="c_ii handler slots")
+
+
+
+def _stack_aliases(fn_node, attr="_residuals"):
+    """local names bound to the residual stack object (`residuals = self._residuals`)"""
+    return {s_.targets[0].id for s_ in ast.walk(fn_node) if isinstance(s_, ast.Assign) and len(s_.targets) == 1 and
+            isinstance(s_.targets[0], ast.Name) and is_self_attr(s_.value, attr)}
+
+
+def _is_stack(e, aliases, attr="_residuals"):
+    return is_self_attr(e, attr) or (isinstance(e, ast.Name) and e.id in aliases)
+
+
+def _stack_delta(stmt, aliases, attr="_residuals"):
+    """net effect of one simple statement on the length of the residual stack: x.pop() -1, x.append(v) +1, del x[-k:] -k,
+    del x[-1] -1; compound statements and anything else 0"""
+    d = 0
+    if isinstance(stmt, ast.Delete):
+        for t in stmt.targets:
+            if isinstance(t, ast.Subscript) and _is_stack(t.value, aliases, attr):
+                if isinstance(t.slice, ast.Slice) and t.slice.upper is None and t.slice.step is None:
+                    k = const_value(t.slice.lower)
+                    if isinstance(k, int) and k < 0:
+                        d += k
+                    else:
+                        raise AnalysisError("del %s: removed range not understood" % norm_text(t))
+                elif isinstance(const_value(t.slice), int):
+                    d -= 1
+                else:
+                    raise AnalysisError("del %s: removed range not understood" % norm_text(t))
+        return d
+    if isinstance(stmt, (ast.If, ast.For, ast.While, ast.Try, ast.With, ast.FunctionDef)):
+        return 0
+    for c in calls_in(stmt):
+        if isinstance(c.func, ast.Attribute) and _is_stack(c.func.value, aliases, attr):
+            if c.func.attr == "pop" and not c.args:
+                d -= 1
+            elif c.func.attr == "append":
+                d += 1
+            elif c.func.attr in ("clear", "extend", "insert", "remove", "__delitem__"):
+                raise AnalysisError("%s: stack operation not modelled" % norm_text(c))
+    return d
 
 
 # --------------------------------------------------------------------------------- R-C02-3
@@ -675,12 +715,13 @@ def _r3_conservation(ctx):
     # FKM python detector
     fi = prog.func("pylife.stress.rainflow.fkm:FKMDetector.process")
     loop = [s for s in fi.node.body if isinstance(s, ast.For)][0]
+    al_ = _stack_aliases(fi.node)
     pushes = [s for s in loop.body if isinstance(s, ast.Expr) and isinstance(s.value, ast.Call) and
               isinstance(s.value.func, ast.Attribute) and s.value.func.attr == "append" and
-              is_self_attr(s.value.func.value, "_residuals") and isinstance(s.value.args[0], ast.Name) and
+              _is_stack(s.value.func.value, al_) and isinstance(s.value.args[0], ast.Name) and
               s.value.args[0].id == loop.target.id]
     all_pushes = [c for c in calls_in(loop) if isinstance(c.func, ast.Attribute) and c.func.attr in ("append", "insert", "extend")
-                  and is_self_attr(c.func.value, "_residuals")]
+                  and _is_stack(c.func.value, al_)]
     escapes = [s for s in walk_stmts(loop.body) if isinstance(s, (ast.Return, ast.Raise))]
     outer_jumps = [s for s in loop.body if isinstance(s, (ast.Break, ast.Continue))]
     for s in loop.body:
@@ -704,12 +745,14 @@ def _r3_conservation(ctx):
             pops = fa = ta = 0
             for n in path:
                 s = cfg.stmt[n]
+                if cfg.kind[n] == "stmt" and isinstance(s, ast.Delete):
+                    pops -= min(0, _stack_delta(s, al_))
                 if cfg.kind[n] == "stmt" and isinstance(s, ast.Expr) and isinstance(s.value, ast.Call) and \
                         isinstance(s.value.func, ast.Attribute):
                     c = s.value
-                    if c.func.attr == "pop" and is_self_attr(c.func.value, "_residuals"):
+                    if c.func.attr == "pop" and _is_stack(c.func.value, al_):
                         pops += 1
-                    if c.func.attr == "append" and isinstance(c.func.value, ast.Name):
+                    if c.func.attr == "append" and isinstance(c.func.value, ast.Name) and not _is_stack(c.func.value, al_):
                         if c.func.value.id == from_name:
                             fa += 1
                         elif c.func.value.id == to_name:
@@ -740,12 +783,7 @@ def _r3_conservation(ctx):
                 for n, _ in p:
                     s = c2.stmt[n]
                     if c2.kind[n] == "stmt" and s is not None:
-                        for c in calls_in(s):
-                            if isinstance(c.func, ast.Attribute) and is_self_attr(c.func.value, "_residuals"):
-                                if c.func.attr == "pop":
-                                    n_p -= 1
-                                elif c.func.attr == "append":
-                                    n_p += 1
+                        n_p += _stack_delta(s, _stack_aliases(f.node))
                 tot.add(n_p)
         return tot
     for path, how in _loop_paths(cfg, loop):
@@ -761,11 +799,9 @@ def _r3_conservation(ctx):
                     eff = callee_pops(c)
                     if eff and eff != {0}:
                         d_res = {a + b for a in d_res for b in eff}
-                if isinstance(c.func, ast.Attribute) and is_self_attr(c.func.value, "_residuals"):
-                    if c.func.attr == "pop":
-                        d_res = {a - 1 for a in d_res}
-                    elif c.func.attr == "append":
-                        d_res = {a + 1 for a in d_res}
+            own = _stack_delta(s, _stack_aliases(ps.node))
+            if own:
+                d_res = {a + own for a in d_res}
         if d_res == {d_iz}:
             ctx.holds(ps, loop, "HCM loop path: d(iz)=%+d equals d(len(residuals))" % d_iz)
         else:
